@@ -33,7 +33,8 @@ def run(ctx):
     ch = ctx.ch
     feats = {"cond": ch.coin(3, 4, "f-cond"), "loop": ch.coin(3, 4, "f-loop"), "cfg": ch.coin(3, 4, "f-cfg"),
              "calls": ch.coin(3, 4, "f-calls"), "poly": ch.coin(1, 2, "f-poly"), "meta": ch.coin(1, 2, "f-meta"),
-             "insert": ch.coin(1, 2, "f-insert"), "refusals": ch.coin(1, 4, "f-refusals")}
+             "insert": ch.coin(1, 2, "f-insert"), "refusals": ch.coin(1, 4, "f-refusals"),
+             "odd_names": ch.coin(1, 3, "f-odd-names"), "second_ext": ch.coin(1, 3, "f-second-ext"), "stray_links": ch.coin(1, 3, "f-stray-links")}
     cap = 25 + ch.draw(60 if ctx.cfg.get("tier") != "thorough" else 150, "max-steps")
     try:
         sim = BuilderSim(ctx, features=feats, max_steps=cap)
